@@ -57,15 +57,18 @@ func parseBatchC31(p chainlib.ChainParser, ms []rpcMember, latest uint64, none b
 	return s, nil
 }
 
-func parseSoloC31(p chainlib.ChainParser, m rpcMember, latest uint64) (soloInfo, error) {
+// parseSoloC31 parses one member alone. `note` is non-empty when the result is not what the generator
+// expects of a valid single request (range instead of one block, CU differing from the spec): that is
+// reported as a harness problem only if no clause of the property fails (see checkBatchC31).
+func parseSoloC31(p chainlib.ChainParser, m rpcMember, latest uint64) (si soloInfo, note string, err error) {
 	body := singleBody(m)
 	auto, err := p.ParseMsg("", body, "POST", nil, extensionslib.ExtensionInfo{LatestBlock: latest})
 	if err != nil {
-		return soloInfo{}, err
+		return soloInfo{}, "", err
 	}
 	l, e := auto.RequestedBlock()
-	if l != e {
-		return soloInfo{}, fmt.Errorf("single request reports a range (%d,%d)", l, e)
+	if l != e || l != m.wantBlock() {
+		note = fmt.Sprintf("member %s alone reports requested block (%d,%d), generator expects %d", m, l, e, m.wantBlock())
 	}
 	mult := uint64(1)
 	for _, x := range auto.GetExtensions() {
@@ -73,9 +76,9 @@ func parseSoloC31(p chainlib.ChainParser, m rpcMember, latest uint64) (soloInfo,
 	}
 	// m.M.CU is the method's compute units in the spec file (checked against the loaded spec in TestC31)
 	if got := auto.GetApi().ComputeUnits; got != m.M.CU*mult {
-		return soloInfo{}, fmt.Errorf("member %s alone costs %d CU, spec says %d x extension multiplier %d", m, got, m.M.CU, mult)
+		note = fmt.Sprintf("member %s alone costs %d CU, spec says %d x extension multiplier %d", m, got, m.M.CU, mult)
 	}
-	return soloInfo{block: l, cuBase: m.M.CU, archive: hasArchive(auto)}, nil
+	return soloInfo{block: m.wantBlock(), cuBase: m.M.CU, archive: hasArchive(auto)}, note, nil
 }
 
 func isHeadTag(b int64) bool {
@@ -96,16 +99,22 @@ func membersString(ms []rpcMember) string {
 func checkBatchC31(p chainlib.ChainParser, ms []rpcMember, latest uint64, perms [][]int, skipEarliestSide bool, c *ev.Collector) (viol string, harness string, skipped bool) {
 	n := len(ms)
 	solos := make([]soloInfo, n)
+	softNote := ""
+	defer func() {
+		if viol == "" && harness == "" && softNote != "" {
+			harness = softNote // nothing of the property failed, but the fixture is not what the generator assumes
+		}
+	}()
 	var sumBase uint64
 	anyArchive := false
 	hetero := false
 	for i, m := range ms {
-		si, err := parseSoloC31(p, m, latest)
+		si, note, err := parseSoloC31(p, m, latest)
 		if err != nil {
 			return "", fmt.Sprintf("member %s does not parse alone: %v", m, err), false
 		}
-		if si.block != m.wantBlock() {
-			return "", fmt.Sprintf("generator expected block %d for %s, parser reports %d", m.wantBlock(), m, si.block), false
+		if note != "" {
+			softNote = note
 		}
 		solos[i] = si
 		sumBase += si.cuBase
@@ -561,11 +570,6 @@ func TestC31Known_NotApplicableMember(t *testing.T) {
 	p := c31Witness(t)
 	na := rpcMember{M: ethNoBlockMethods[4], Blk: blockReq{Kind: "none"}, ID: 2} // net_version
 	for _, ms := range [][]rpcMember{{getBalance(numBlk(100), 1), na}, {na, getBalance(numBlk(100), 1)}, {getBalance(numBlk(100), 1), getBalance(numBlk(100), 3), na}} {
-		solo, err := parseSoloC31(p, ms[0], 10000)
-		if err != nil {
-			t.Fatalf("%s", ev.HarnessError("%v", err))
-		}
-		_ = solo
 		if b := mustBatch(t, p, ms, 10000); !b.archive {
 			t.Fatalf("%s", ev.Violation("C31", "known finding %s: eth_getBalance@100 alone requires archive (latest block 10000) but batch %s, summarised as (%d,%d), does not", findC31NA, membersString(ms), b.latest, b.earliest))
 		}
